@@ -4,9 +4,10 @@ CONSTANTS
   Evil = 2
   ClaimSet = {1}
   NoteSet = {0, 1}
+  Services = {"a"}
   MaxNet = 3
-  MaxBlobs = 2
-  MaxClock = 1
+  MaxBlobs = 1
+  MaxClock = 0
   Weaken = "footer"
 VIEW MCView
 INVARIANTS Invs
